@@ -1578,11 +1578,22 @@ fn sched_eval(fam: usize, roles: &[u8], env: &Env, ctx: &Ctx, acc: &mut Acc) {
         .clone()
         .into_checked_basic(BlockHeight::new(0), &env.cp)
         .expect("basic checks passed above");
-    let perms = space::permutations(n);
+    let mut perms = space::permutations(n);
+    if fam != 0 {
+        // run order cannot influence memory content in the parallel path (one memory per
+        // task): identity and reversed order only
+        let rev: Vec<usize> = (0..n).rev().collect();
+        perms.retain(|p| p.iter().copied().eq(0..n) || *p == rev);
+    }
     let assigns = space::Product::new(&vec![mems.len() as u64; n]);
     let mut distinct: HashSet<String> = HashSet::new();
+    // heap-reuse family: memory content is what matters, so identity/reversed run order x every memory
+    // assignment is checked with results in completion order, and estimation (whose gas does
+    // not depend on memory content) only under the identity order
+    let result_orders: &[bool] = if fam == 0 { &[false, true] } else { &[false] };
+    let identity: Vec<usize> = (0..n).collect();
     for perm in &perms {
-        for creation in [false, true] {
+        for creation in result_orders.iter().copied() {
             for ai in 0..assigns.size() {
                 let assign: Vec<u8> = assigns.digits(ai).into_iter().map(|d| mems[d as usize]).collect();
                 let sched = || {
@@ -1609,6 +1620,9 @@ fn sched_eval(fam: usize, roles: &[u8], env: &Env, ctx: &Ctx, acc: &mut Acc) {
                 }
                 distinct.insert(format!("c:{}", p.v.label()));
                 // estimation
+                if fam != 0 && *perm != identity {
+                    continue
+                }
                 let e = estimate_par(&tx0, &env.cpp, &env.tpl, perm, creation, &assign);
                 acc.evals += 1;
                 acc.cnt("schedules_estimate", 1);
@@ -1721,7 +1735,7 @@ fn part_sched(ctx: &Ctx, env: &Env) {
                "heap_reuse_family": {"roles": HEAP_ROLES, "plus": "ret 1", "transactions": fam.len() - n_orig,
                                      "family": format!("all role sequences of length 1..=3 over 7 roles{}", if ctx.thorough() { " + all of length 4 over the 2 dirtiers and the 2 two-step probers" } else { "" }),
                                      "memory_kinds": ["fresh", "after-heap-dirtier-200", "after-heap-dirtier-4096", "dirty-script"]},
-               "per_tx": "n! run orders x {completion, creation} result order x k^n memory assignments (k = 3 / 4 memory kinds), for check_predicates_async and estimate_predicates_async; sequential functions also on every dirty memory kind",
+               "per_tx": "main family: n! run orders x {completion, creation} result order x 3^n memory assignments, for check_predicates_async and estimate_predicates_async; heap-reuse family: {identity, reversed} run order x 4^n memory assignments (completion order) for check_predicates_async, 4^n assignments for estimate_predicates_async; sequential functions also on every dirty memory kind",
                "memory_kinds": MEM_NAMES, "counters": total}),
     );
     ctx.set("info_seq_vs_par_estimation_verdict_sched", json!(info));
